@@ -15,6 +15,10 @@
   at the front -- the closed form of Model/BSpline.v.
 * the same for evaluate_cubic_bspline(transpose=True): traced through core.image.conv / conv1d / F.conv_transpose1d with
   symbolic kernels, every cropped sample must be the gather form  sum_j c[j] prod ker[x + s + p - j s]  (the evT* model)
+* spatial_derivatives(mode='bspline') on symbolic spacing: every key (mixed keys of total order >= 3 included) is the spline
+  derivative of that order divided by prod_a spacing[a]^order[a]
+* spatial/bspline.py BSplineTransform.data_stride / data_shape / evaluate_spline / grid_ executed on recording stand-ins
+  (stride order, control grid size, crop after subdivision: drop the first coefficient)
 Float literals are read as the simplest rational with the same double (1/6 for 0.16666666666666666)."""
 import itertools
 import re
@@ -725,6 +729,221 @@ def check_evaluate_transposed(bs, btable):
             raise TraceError("evaluate_cubic_bspline(transpose=True, kernel=None) does not use cubic_bspline1d(stride) per axis in (x, y) order")
 
 
+def check_bspline_mode(loader, bs):
+    """core.image.spatial_derivatives(mode='bspline') on symbolic coefficients and symbolic per-axis / per-batch spacing: for every
+    key (orders up to 3 per axis, mixed keys of total order >= 3 included) the result times  prod_a spacing[a]^order[a]  must be
+    evaluate_cubic_bspline(data, stride, derivative=order)"""
+    img = loader.load("deepali.core.image")
+
+    def arange_for(*args, dtype=None, device=None):
+        s_ = round(1 / args[2])
+        if args[0] != 0 or args[1] != 1 or args[2] != 1 / s_:
+            raise TraceError(f"offset vector is not arange(0, 1, 1/stride): {args}")
+        return st.Tensor(st._lift_array([Fraction(o, s_) for o in range(s_)]))
+
+    with patched(bs, "torch", TorchProxy(st, arange=arange_for)), simple_float_literals():
+        for shape, stride, keys in (((4, 5), (2, 1), ["x", "xy", "xyy", "xxy", "yyy", "yx"]), ((4, 4, 4), (1, 2, 1), ["z", "xzz", "xyz", "yyz"])):
+            D = len(shape)
+            for N, form in ((1, "axis"), (2, "batch")):
+                data = np.empty((N, 1) + shape, dtype=object)
+                for idx in np.ndindex(data.shape):
+                    data[idx] = E.var("c_" + "_".join(map(str, idx)))
+                hs = np.empty((N, D), dtype=object)
+                for b_ in range(N):
+                    for a_ in range(D):
+                        hs[b_, a_] = E.var(f"h{b_}_{a_}")
+                spacing = st.Tensor(hs[0]) if form == "axis" else st.Tensor(hs)
+                r = img.spatial_derivatives(st.Tensor(data), which=keys, mode="bspline", spacing=spacing, stride=stride)
+                if list(r.keys()) != keys:
+                    raise TraceError(f"spatial_derivatives(mode='bspline') keys {list(r.keys())}, requested {keys}")
+                rng = np.random.RandomState(5)
+                env = {e.args[0]: Fraction(int(rng.randint(-9, 10)), 4) for e in data.reshape(-1)}
+                for b_ in range(N):
+                    for a_ in range(D):
+                        env[f"h{b_}_{a_}"] = Fraction([2, 3, 5, 7, 11, 13][b_ * 3 + a_], [3, 2, 4][a_])
+                for key in keys:
+                    order = [key.count("xyz"[a_]) for a_ in range(D)]
+                    ref = bs.evaluate_cubic_bspline(st.Tensor(data), stride=stride, derivative=order)
+                    if ref.shape != r[key].shape:
+                        raise TraceError(f"spatial_derivatives(mode='bspline')[{key}] has shape {r[key].shape}")
+                    for idx in np.ndindex(ref.a.shape):
+                        b_ = idx[0]
+                        den = Fraction(1)
+                        for a_ in range(D):
+                            den *= env[f"h{b_ if form == 'batch' else 0}_{a_}"] ** order[a_]
+                        if fr_eval(r[key].a[idx], env) * den != fr_eval(ref.a[idx], env):
+                            raise TraceError(f"spatial_derivatives(mode='bspline', spacing form {form})[{key}] is not the order-{order} spline "
+                                             "derivative divided by prod spacing[a]^order[a]")
+
+
+def check_ffd_glue(loader):
+    """spatial/bspline.py BSplineTransform: the methods that connect the transform to core/bspline.py are executed (function
+    bodies taken from the source text, decorators dropped) on recording stand-ins:
+      data_stride = stride reversed (tensor order); data_shape = (D,) + control grid size of (grid.shape, data_stride);
+      evaluate_spline passes shape=grid.shape, stride=self.stride (x first), the kernels of self.stride and the transpose flag;
+      grid_ subdivides exactly the axes whose size goes n -> 2 n - 1, then drops the FIRST coefficient and keeps data_shape many"""
+    import ast
+    import os
+    import typing
+    path = os.path.join(loader.root, "deepali", "spatial", "bspline.py")
+    tree = ast.parse(open(path).read())
+    cls = [n for n in tree.body if isinstance(n, ast.ClassDef) and n.name == "BSplineTransform"]
+    if len(cls) != 1:
+        raise TraceError("class BSplineTransform not found in spatial/bspline.py")
+    fns = {n.name: n for n in cls[0].body if isinstance(n, ast.FunctionDef)}
+    enum_mod = loader.load("deepali.core.enum")
+    calls = []
+
+    class StubTensor:
+        def __init__(self, shape, tag="params", ops=()):
+            self.shape, self.tag, self.ops = tuple(shape), tag, tuple(ops)
+            self.ndim = len(self.shape)
+
+        def narrow(self, dim, start, length):
+            shp = list(self.shape)
+            if start + length > shp[dim]:
+                raise TraceError("narrow beyond the subdivided size")
+            shp[dim] = length
+            return StubTensor(shp, self.tag, self.ops + (("narrow", dim, start, length),))
+
+        def contiguous(self):
+            return self
+
+    class UStub:
+        @staticmethod
+        def cubic_bspline_control_point_grid_size(size, stride):
+            calls.append(("size", tuple(size), tuple(stride)))
+            return tuple(m // s_ + 3 + (0 if m % s_ == 0 else 1) for m, s_ in zip(size, stride))
+
+        @staticmethod
+        def evaluate_cubic_bspline(data, **kw):
+            calls.append(("eval", data, kw))
+            return "U"
+
+        @staticmethod
+        def subdivide_cubic_bspline(params, dims=None):
+            calls.append(("subdivide", params, tuple(int(d) for d in dims)))
+            shp = list(params.shape)
+            for d in dims:
+                td = enum_mod.SpatialDim(d).tensor_dim(params.ndim)
+                shp[td] = 2 * shp[td] - 1
+            return StubTensor(shp, "subdivided")
+
+    class SizeStub(tuple):
+        pass
+
+    ns = {"U": UStub, "Size": SizeStub, "Tuple": typing.Tuple, "List": typing.List, "Optional": typing.Optional, "Union": typing.Union,
+          "Tensor": StubTensor, "SpatialDim": enum_mod.SpatialDim, "Grid": object, "TBSplineTransform": typing.TypeVar("T"),
+          "ScalarOrTuple": typing.Union, "type": type}
+    compiled = {}
+    for name in ("data_stride", "data_shape", "evaluate_spline", "grid_"):
+        if name not in fns:
+            raise TraceError(f"BSplineTransform.{name} not found")
+        node = fns[name]
+        node.decorator_list = []
+        node.returns = None
+        for a_ in node.args.args:
+            a_.annotation = None
+        mod = ast.Module(body=[node], type_ignores=[])
+        ast.fix_missing_locations(mod)
+        exec(compile(mod, path, "exec"), ns)
+        compiled[name] = ns[name]
+
+    class GridStub:
+        def __init__(self, size_x):
+            self._size = tuple(size_x)
+            self.ndim = len(size_x)
+            self.shape = tuple(reversed(size_x))
+
+        def size(self):
+            return self._size
+
+        def align_corners(self):
+            return True
+
+        def same_domain_as(self, other):
+            return True
+
+    class FFD:
+        data_stride = property(compiled["data_stride"])
+        data_shape = property(compiled["data_shape"])
+        evaluate_spline = compiled["evaluate_spline"]
+        grid_ = compiled["grid_"]
+
+        def __init__(self, size_x, stride, transpose=False):
+            self._grid = GridStub(size_x)
+            self.stride = tuple(stride)
+            self._transpose = transpose
+            self.params = None
+            self.set = None
+
+        def grid(self):
+            return self._grid
+
+        def data(self):
+            return "DATA"
+
+        def kernel(self, stride):
+            return ("KERNEL", tuple(stride))
+
+        def data_(self, t):
+            self.set = t
+            return self
+
+        def clear_buffers(self):
+            return self
+
+    def ctrl(m, s_):
+        return m // s_ + 3 + (0 if m % s_ == 0 else 1)
+
+    for size_x, stride in (((11, 7, 5), (2, 3, 4)), ((9, 6), (5, 2)), ((8, 8, 8), (1, 2, 3))):
+        D = len(size_x)
+        f = FFD(size_x, stride)
+        if tuple(f.data_stride) != tuple(reversed(stride)):
+            raise TraceError(f"BSplineTransform.data_stride {tuple(f.data_stride)} is not the stride in tensor order {tuple(reversed(stride))}")
+        want = (D,) + tuple(ctrl(m, s_) for m, s_ in zip(reversed(size_x), reversed(stride)))
+        if tuple(f.data_shape) != want:
+            raise TraceError(f"BSplineTransform.data_shape {tuple(f.data_shape)} is not {want}")
+        for tr in (False, True):
+            calls.clear()
+            f._transpose = tr
+            f.evaluate_spline()
+            ev = [c for c in calls if c[0] == "eval"]
+            if len(ev) != 1 or ev[0][1] != "DATA":
+                raise TraceError("evaluate_spline does not evaluate the transform's data once")
+            kw = ev[0][2]
+            if tuple(kw.get("shape", ())) != f._grid.shape or tuple(kw.get("stride", ())) != tuple(stride) or \
+                    kw.get("kernel") != ("KERNEL", tuple(stride)) or kw.get("transpose") is not tr or "size" in kw or kw.get("derivative"):
+                raise TraceError(f"evaluate_spline passes {kw}")
+        # grid_: refine a subset of the axes
+        for which in itertools.product((False, True), repeat=D):
+            if not any(which):
+                continue
+            f = FFD(size_x, stride)
+            old_shape = (1,) + tuple(f.data_shape)
+            f.params = StubTensor(old_shape)
+            new_size = tuple(2 * m - 1 if w else m for m, w in zip(size_x, which))
+            calls.clear()
+            try:
+                f.grid_(GridStub(new_size))
+            except TypeError as exc:
+                raise TraceError(f"grid_ could not be executed on stand-ins: {exc}")
+            sub = [c for c in calls if c[0] == "subdivide"]
+            if len(sub) != 1 or sub[0][1] is not f.params or sorted(sub[0][2]) != [d for d in range(D) if which[d]]:
+                raise TraceError(f"grid_({new_size}) subdivides dims {sub[0][2] if sub else None}")
+            t = f.set
+            if t is None or t.tag != "subdivided":
+                raise TraceError("grid_ does not store the subdivided coefficients")
+            want_shape = (1, D) + tuple(ctrl(m, s_) for m, s_ in zip(reversed(new_size), reversed(stride)))
+            if t.shape != want_shape:
+                raise TraceError(f"grid_({new_size}) stores coefficients of shape {t.shape}, expected {want_shape}")
+            for op in t.ops:
+                if op[0] != "narrow" or op[2] != 1:
+                    raise TraceError(f"grid_ keeps coefficients starting at index {op[2]} of the subdivided grid (the first one must be dropped)")
+            if sorted(op[1] for op in t.ops) != sorted(enum_mod.SpatialDim(d).tensor_dim(len(old_shape)) for d in range(D) if which[d]):
+                raise TraceError("grid_ crops other axes than the subdivided ones")
+
+
 def generate(loader):
     bs = loader.load("deepali.core.bspline")
     ker = loader.load("deepali.core.kernels")
@@ -740,4 +959,6 @@ def generate(loader):
     out += ctrl_size_section(bs)
     check_evaluate(bs)
     check_evaluate_transposed(bs, None)
+    check_bspline_mode(loader, bs)
+    check_ffd_glue(loader)
     return "\n".join(out)
